@@ -1,8 +1,8 @@
 #!/verif/.venv/bin/python
 # Replay of a solver counterexample against the unmodified code (no shims).
-# property=C07 kernel=seq label=k2:not_before_last_shift
+# property=C07 kernel=qubitref label=k1:last_used_monotone
 import sys
 sys.path[:0] = ["/repo/pulser-core", "/repo/pulser-simulation", "/verif"]
 from symx.replay import replay
-sys.exit(replay(check='checks.c07', kernel='seq', shape={'device': 'mock', 'channels': [('a', 'raman_global', None), ('b', 'raman_local', 'q1'), ('r', 'rydberg_global', None)], 'program': [['add', 'b', 'min-delay', 32, False], ['shift', ['q1'], 'digital'], ['shift', ['q0', 'q2'], 'digital'], ['add', 'a', 'no-delay', 16, False]]},
-                assignment={'ph0': 0, 'phi1': 1, 'phi2': 1, 'ph3': 0}, label='k2:not_before_last_shift'))
+sys.exit(replay(check='checks.c07', kernel='qubitref', shape={'ops': ['inc', 'use', 'use']},
+                assignment={'phi0': 0, 't1': 1, 't2': 0}, label='k1:last_used_monotone'))
